@@ -54,6 +54,9 @@ type NDOp struct {
 	// candidate of the pending version (which the next Finalize then has to choose): the storage
 	// layer applies the diff of round r+1 before round r is finalized.
 	Ahead bool `json:"ahead,omitempty"`
+	// Refused > 0: after the first half of the writes the tree is first committed into a version
+	// the database must refuse (1: the latest finalized version, 2: the finalized version before it); the second half of the writes and the real commit follow on the same tree.
+	Refused int `json:"refused,omitempty"`
 	Writes []NDWrite `json:"w,omitempty"`
 	Choice []int     `json:"choice,omitempty"`
 }
@@ -395,16 +398,45 @@ func (r *ndRun) apply(op NDOp) *core.Violation {
 		}
 		tree := r.openAt(parentRoot)
 		defer tree.Close()
-		for _, w := range op.Writes {
+		refuseAt := -1
+		if op.Refused > 0 && len(op.Writes) > 0 && !ahead && m.haveAny {
+			refuseAt = len(op.Writes) / 2
+		}
+		for wi, w := range op.Writes {
+			if wi == refuseAt {
+				// (1: the latest finalized version; 2: an earlier finalized version when there is one.)
+				bad := m.latest
+				if op.Refused == 2 && m.latest > m.earliest {
+					bad = m.latest - 1
+				}
+				if _, _, err := tree.Commit(r.ctx, Namespace, bad); err == nil {
+					// The database accepted it (e.g. nothing finalized yet): not the case aimed at,
+					// and the history has left the model; it is not accepted further.
+					r.st.Inc("probe.history_rejected_commit_into_unexpected_version_accepted")
+					r.rejected = true
+					return nil
+				}
+				r.st.Inc("probe.commit_refused_then_retried_on_same_tree")
+			}
 			key := r.keys[w.Key%len(r.keys)]
 			if w.Rm {
 				if err := tree.Remove(r.ctx, key); err != nil {
+					if refuseAt >= 0 && wi >= refuseAt {
+						r.st.Inc("probe.history_rejected_commit_after_refused_commit_failed")
+						r.rejected = true
+						return nil
+					}
 					return ndViol(r.prop, "op-error", "op-error remove", fmt.Sprintf("%s: op %d: remove on a tree at v%d %s failed: %v", r.backend, r.opIdx, parentRoot.Version, parentRoot.Hash, err))
 				}
 				delete(contents, string(key))
 			} else {
 				val := Value(w.ID, w.Len)
 				if err := tree.Insert(r.ctx, key, val); err != nil {
+					if refuseAt >= 0 && wi >= refuseAt {
+						r.st.Inc("probe.history_rejected_commit_after_refused_commit_failed")
+						r.rejected = true
+						return nil
+					}
 					return ndViol(r.prop, "op-error", "op-error insert", fmt.Sprintf("%s: op %d: insert on a tree at v%d %s failed: %v", r.backend, r.opIdx, parentRoot.Version, parentRoot.Hash, err))
 				}
 				contents[string(key)] = val
@@ -415,6 +447,14 @@ func (r *ndRun) apply(op NDOp) *core.Violation {
 		var err error
 		r.ensureReaders(nil)
 		r.withHooks(m.latest, func() { wl, h, err = tree.Commit(r.ctx, Namespace, v) })
+		if err != nil && refuseAt >= 0 {
+			// A tree whose commit was refused need not be committable afterwards (pathbadger: "no new
+			// root node, but new root hash not equal to old"); an error is not a wrong answer. The
+			// history is not accepted further.
+			r.st.Inc("probe.history_rejected_commit_after_refused_commit_failed")
+			r.rejected = true
+			return nil
+		}
 		if err != nil {
 			return ndViol(r.prop, "op-error", "op-error commit", fmt.Sprintf("%s: op %d: commit of a %s candidate for version %d derived from v%d %s failed: %v", r.backend, r.opIdx, typ, v, parentRoot.Version, parentRoot.Hash, err))
 		}
@@ -965,6 +1005,20 @@ func (e NodeDBEngine) Generate(r *core.Rand, tier core.Tier) *core.Scenario {
 		}
 	}
 	if e.CheckWL {
+		// Refused commits (own PRNG): a quarter of the commits are first attempted into a version
+		// the database refuses, on the tree that is then committed properly.
+		rr := core.NewRand(core.Hash64(core.MustJSON(k)) ^ 0x7ef05ed)
+		for i, raw := range sc.Ops {
+			var op NDOp
+			_ = json.Unmarshal(raw, &op)
+			// (badger only: on pathbadger a tree whose commit was refused cannot be committed
+			// completely afterwards — later reads of that root fail with "node not found" — so the
+			// usage is not supported there; recorded as an observation.)
+			if op.K == "commit" && len(op.Writes) >= 2 && rr.Chance(1, 4) && len(k.Backends) == 1 && k.Backends[0] == "badger" {
+				op.Refused = rr.Range(1, 2)
+				sc.Ops[i] = core.MustJSON(op)
+			}
+		}
 		// The write-log batch stays out of the territory of the C06 known findings: no
 		// same-version child roots, and I/O values never coincide with state values.
 		for i, raw := range sc.Ops {
